@@ -216,6 +216,11 @@ def main():
     os.makedirs(V + '/evidence', exist_ok=True)
     if os.path.exists(evidence_path) and not replay:
         os.remove(evidence_path)
+    if not replay and os.path.isdir(V + '/replay'):
+        # replay files of earlier runs of this property would only mislead
+        for f in os.listdir(V + '/replay'):
+            if f.startswith(prop + '-'):
+                os.remove(os.path.join(V, 'replay', f))
 
     if replay:
         try:
